@@ -116,7 +116,10 @@ def main(argv=None):
     for op in [o for o in a.history.split(",") if o]:
         apply_history(op, a, raw, cfg, holder := {"pipe": pipe_a})
         pipe_a = holder["pipe"]
-    out, _ = identities(raw, cfg, not a.no_run, pipe_a)
+    # the Pipeline path works on node definitions loaded AFRESH from the file: whatever inspection (or an earlier history step) did
+    # to the mappings it was given must not matter for the identities of the configuration
+    _, cfg_fresh = load(a.yaml)
+    out, _ = identities(raw, cfg_fresh if pipe_a is None else cfg, not a.no_run, pipe_a)
     out["hashseed"] = os.environ.get("PYTHONHASHSEED")
     out["cwd"] = os.getcwd()
     print(json.dumps(out, sort_keys=True, default=repr))
